@@ -80,6 +80,18 @@ theorem buildFolded_valid (g : UGraph) (frontiers : List (List ℕ)) (h : Layere
     (buildFolded g frontiers).valid g = true :=
   buildFolded_valid' g frontiers h
 
+/-- The same with the executable hypothesis: whenever the check `layeredB` that the driver runs on
+    the ordering handed to the real `build_folded_graph` answers `true`, the model's certificate
+    for that ordering is valid. -/
+theorem buildFolded_valid_of_check (g : UGraph) (frontiers : List (List ℕ))
+    (h : layeredB g frontiers = true) : (buildFolded g frontiers).valid g = true :=
+  buildFolded_valid_of_layeredB g frontiers h
+
+/-- `layeredB` decides exactly the hypothesis of `buildFolded_valid`. -/
+theorem layeredB_layered (g : UGraph) (frontiers : List (List ℕ))
+    (h : layeredB g frontiers = true) : Layered g frontiers :=
+  layeredB_sound h
+
 /-- Hence folding with the modelled algorithm preserves the outputs, for every module semantics. -/
 theorem buildFolded_sound {α : Type} (g : UGraph) (frontiers : List (List ℕ))
     (sem : ℕ → List α → α) (dflt : α) (htopo : g.Topo) (h : Layered g frontiers) :
@@ -98,8 +110,9 @@ example :
     Layered g [[0, 1], [2], [3]] ∧
       (buildFolded g [[0, 1], [2], [3]]).groups = [[0, 1], [2], [3]] ∧
       (buildFolded g [[0, 1], [2], [3]]).inIdx = [[[], []], [[(0, 0), (0, 1)]], [[(1, 0)]]] ∧
+      layeredB g [[0, 1], [2], [3]] = true ∧
       (buildFolded g [[0, 1], [2], [3]]).outIdx = [(2, 0)] := by
-  refine ⟨⟨by decide, ?_, ?_, by simp⟩, by decide, by decide, by decide⟩
+  refine ⟨⟨by decide, ?_, ?_, by simp⟩, by decide, by decide, by decide, by decide⟩
   · intro k hk m hm i hi
     simp only [List.length_cons, List.length_nil] at hk
     interval_cases k
@@ -112,7 +125,7 @@ example :
       subst hm
       simp at hi
       simp [hi]
-  · intro m m' hkey
+  · intro m _ m' _ hkey
     dsimp only at hkey ⊢
     split_ifs at hkey ⊢ <;> first | rfl | (exfalso; omega)
 
